@@ -71,6 +71,9 @@ class Model:
     # coordinate generators
     def addr(self):
         r = self.rnd
+        if self.regime == "medium":
+            return r.choice([None, r.randint(0, 120), r.randint(0, 120),
+                             r.randint(0, 120), r.randint(0, 120)])
         if self.regime == "large":
             return r.choice([None, r.randint(0, 4000), r.randint(0, 4000),
                              r.randint(0, 4000)])
@@ -82,6 +85,8 @@ class Model:
 
     def isize(self):
         r = self.rnd
+        if self.regime == "medium":
+            return r.randint(0, 20)
         if self.regime == "large":
             return r.randint(0, 3000)
         if self.regime == "small":
@@ -90,6 +95,8 @@ class Model:
 
     def off(self):
         r = self.rnd
+        if self.regime == "medium":
+            return r.randint(0, 60)
         if self.regime == "large":
             return r.randint(0, 3000)
         if self.regime == "small":
@@ -99,6 +106,8 @@ class Model:
 
     def bsize(self):
         r = self.rnd
+        if self.regime == "medium":
+            return r.choice([0, 1, 2, 3, r.randint(0, 8)])
         if self.regime == "large":
             return r.choice([0, 1, 2, 4, r.randint(0, 40), r.randint(0, 400)])
         if self.regime == "small":
@@ -150,6 +159,23 @@ class Model:
             yield {"op": "new_sec", "id": self.nid("S"),
                    "mod": r.choice(list(self.mods))}
         large = self.regime == "large"
+        if self.regime == "medium":
+            # one crowded section and one crowded interval (tens of members)
+            sec = r.choice(list(self.secs))
+            for _ in range(r.randint(26, 60)):
+                o = self.gen_new_iv()
+                if r.random() < 0.85:
+                    o["sec"] = sec
+                    if o["addr"] is None and r.random() < 0.8:
+                        o["addr"] = r.randint(0, 120)
+                yield o
+            iv = r.choice(list(self.ivs))
+            for _ in range(r.randint(34, 90)):
+                o = self.gen_new_blk()
+                if r.random() < 0.85:
+                    o["iv"] = iv
+                yield o
+            return
         for _ in range(r.randint(3, 12) if large else r.randint(1, 4)):
             yield self.gen_new_iv()
         for _ in range(r.randint(100, 900) if large else r.randint(1, 6)):
@@ -157,16 +183,25 @@ class Model:
 
     def gen_new_iv(self):
         r = self.rnd
-        return {"op": "new_iv", "id": self.nid("I"), "addr": self.addr(),
-                "size": self.isize(),
+        a, sz = self.addr(), self.isize()
+        if self.ivs and r.random() < 0.3:
+            # coincide exactly with an existing interval
+            twin = self.ivs[r.choice(list(self.ivs))]
+            a, sz = twin["addr"], twin["size"]
+        return {"op": "new_iv", "id": self.nid("I"), "addr": a,
+                "size": sz,
                 "sec": r.choice(list(self.secs) + [None]),
                 "via": r.choice(["ctor", "attr", "add"])}
 
     def gen_new_blk(self):
         r = self.rnd
+        o, sz = self.off(), self.bsize()
+        if self.blks and r.random() < 0.3:
+            twin = self.blks[r.choice(list(self.blks))]
+            o, sz = twin["off"], twin["size"]
         return {"op": "new_blk", "id": self.nid("B"),
-                "kind": r.choice(["code", "data"]), "off": self.off(),
-                "size": self.bsize(),
+                "kind": r.choice(["code", "data"]), "off": o,
+                "size": sz,
                 "iv": r.choice(list(self.ivs) + [None]) if self.ivs else None,
                 "via": r.choice(["ctor", "attr", "add"])}
 
@@ -195,9 +230,15 @@ class Model:
             if k == "blk_size" and B:
                 return {"op": k, "id": r.choice(B), "size": self.bsize()}
             if k == "iv_addr" and I:
-                return {"op": k, "id": r.choice(I), "addr": self.addr()}
+                a = self.addr()
+                if r.random() < 0.25:
+                    a = self.ivs[r.choice(I)]["addr"]
+                return {"op": k, "id": r.choice(I), "addr": a}
             if k == "iv_size" and I:
-                return {"op": k, "id": r.choice(I), "size": self.isize()}
+                z = self.isize()
+                if r.random() < 0.25:
+                    z = self.ivs[r.choice(I)]["size"]
+                return {"op": k, "id": r.choice(I), "size": z}
             if k == "mv_blk" and B and I:
                 return {"op": k, "id": r.choice(B),
                         "iv": r.choice(I + [None]),
@@ -221,11 +262,11 @@ class Model:
                 if self.blks[b]["iv"] is None:
                     return {"op": "mv_blk", "id": b, "iv": r.choice(I),
                             "via": "add"}
-            if k == "new_blk" and len(B) < (1200 if self.regime == "large"
-                                            else 16):
+            if k == "new_blk" and len(B) < {"large": 1200, "medium": 140
+                                            }.get(self.regime, 16):
                 return self.gen_new_blk()
-            if k == "new_iv" and len(I) < (40 if self.regime == "large"
-                                           else 8):
+            if k == "new_iv" and len(I) < {"large": 40, "medium": 70
+                                           }.get(self.regime, 8):
                 return self.gen_new_iv()
             if k == "mv_sec":
                 return {"op": k, "id": r.choice(list(self.secs)),
@@ -588,7 +629,7 @@ class Model:
     def gen_queries(self, rnd, n, complete_points=False):
         crit = self.critical() or [0, 1]
         qs = []
-        if complete_points and self.regime == "small":
+        if complete_points and self.regime in ("small", "medium"):
             top = min(max(crit) + 2, 80)
             qs += list(range(-1, top))
         for _ in range(n):
@@ -1099,6 +1140,10 @@ def run_history(ctx, case, gt, prop, nops, regime=None, focus=None,
     if ctx.tier == "thorough" and rnd.random() < 0.01:
         regime = "large"  # hundreds of blocks: the trees at scale
         nqueries, check_prob = 3, 0.1
+        nops = min(nops, 40)
+    elif rnd.random() < 0.08:
+        regime = "medium"  # tens of members in one container
+        nqueries, check_prob = 4, 0.2
         nops = min(nops, 40)
     model = Model(rnd, regime)
     real = Real(gt, ctx, random.Random(case.seed_str + ":uuid"))
